@@ -3,7 +3,10 @@
 mod alloc;
 mod builder;
 mod codec;
+mod endpoint;
+mod queue;
 mod sim;
+mod timesync;
 mod util;
 
 #[global_allocator]
@@ -15,8 +18,11 @@ fn main() {
     let level = args.get(1).map(String::as_str).unwrap_or("");
     match level {
         "codec" => codec::run(),
+        "endpoint" => endpoint::run(),
         "builder" => builder::run(),
         "sim" => sim::run(),
+        "queue" => queue::run(),
+        "timesync" => timesync::run(),
         "profile" => println!("{}", if cfg!(debug_assertions) { "debug" } else { "release" }),
         _ => {
             eprintln!("usage: vharness <codec|...>");
